@@ -161,6 +161,17 @@ CHECKS["C09"] = (
     "integral as one symbol) and the dissipation-weighted wavenumber vector handed to atan2 rotate/mirror as vectors.",
     "DESIGN.md#c09", "Equality of the root-finder outputs (roughness, U10) for rotated inputs and the atan2 shift are "
     "consequences stated, not solver claims.")
+CHECKS["C10"] = (
+    "Charnock: the fixed-point map handed to the solver is z -> alpha (kappa U/ln(10/z))^2/g + c nu/u* (viscous term "
+    "dropped for u*<=0), searched on (0,inf), the drag coefficient is (kappa/ln(10/z0))^2 of the returned roughness, "
+    "missing wind gives missing roughness. fixed_point_iteration (map uninterpreted, 1 element, 1..3 iterations, "
+    "thorough 5): a non-NaN result is a function/bounds-halving step that met the absolute and the relative tolerance. "
+    "Janssen roughness: _stress_iteration_function(log z0) == rho_air u*^2 - |wave supported + tail + viscous stress| "
+    "evaluated at exp(log z0) with the source term and tail stress as arbitrary symbolic fields, east/north components "
+    "checked separately; _roughness_estimate(_point) returns exp(root) > 0 or NaN (NaN spectrum, zero/NaN wind, any "
+    "solver exception), per point. numba_newton_raphson (function uninterpreted, <=3 iterations, thorough 4): normal "
+    "return only when the last step is below atol and rtol.", "DESIGN.md#c10",
+    "That the returned roughness satisfies its equation to 1e-4 and monotonicity in U are NOT claimed.")
 NA = {}
 
 ALL = [f"C{i:02d}" for i in range(1, 21)]
